@@ -201,7 +201,10 @@ class Scopes:
             self.fns.append((m.start(), end, m.group(1), s[m.start():k], k))
         for m in IMPL_RE.finditer(s):
             b = m.end() - 1
-            self.impls.append((m.start(), match_brace(s, b), norm(m.group(1))))
+            name = norm(m.group(1))
+            if ")" in name or "->" in name or "=" in name.split(" for ")[-1]:
+                continue                      # `impl Trait` in a return type that happens to start a line
+            self.impls.append((m.start(), match_brace(s, b), name))
 
     def fn_at(self, pos):
         best = None
@@ -411,8 +414,14 @@ def census():
     uses = {}
     ctor = []
     callers = {}
+    carriers = []          # functions that receive or return an IceConn
+    holders = []           # struct fields that hold an IceConn
+    ice_impls = []         # impl <Trait> for IceConn
+    recv_impls = []        # impl PacketReceiver for <T>
+    macros = []            # macro_rules! that could hide a sender
     for rel, s in sorted(sources.items()):
         sc = Scopes(s)
+        send_pos, sock_pos = [], []
         fields = struct_fields(s)
         fields_ice = {f for f, tys in fields.items() if any(has_ice(t) for t in tys)}
         cache = {}
@@ -423,9 +432,12 @@ def census():
                 continue
             if f[0] not in cache:
                 cache[f[0]] = typed_names(s[f[4]:f[1]], f[3], fields_ice, ret_fns)
-            if is_iceconn_receiver(recv, cache[f[0]], fields_ice, ret_fns):
+            im_here = sc.impl_at(m.start())
+            self_is_ice = recv == "self" and im_here is not None and im_here[2].split(" for ")[-1].strip() == "IceConn"
+            if self_is_ice or is_iceconn_receiver(recv, cache[f[0]], fields_ice, ret_fns):
                 key = (rel, sc.label(m.start()), CALLEE[m.group(1)], recv)
                 send_sites[key] = send_sites.get(key, 0) + 1
+                send_pos.append(m.start())
             elif m.group(1) == "send_rtcp":
                 key = (rel, sc.label(m.start()), "send_rtcp")
                 callers[key] = callers.get(key, 0) + 1
@@ -441,6 +453,7 @@ def census():
             name = m.group(1) or m.group(2)
             key = (rel, sc.label(m.start()), name)
             socket_sites[key] = socket_sites.get(key, 0) + 1
+            sock_pos.append(m.start())
         for m in re.finditer(r"\b(%s)\(\)" % "|".join(sorted(re.escape(x) for x in ret_fns)), s):
             if re.search(r"\bfn\s+$", s[max(0, m.start() - 6):m.start()]):
                 continue
@@ -460,6 +473,35 @@ def census():
                     use = "expr"
             key = (rel, sc.label(m.start()), m.group(1), use)
             uses[key] = uses.get(key, 0) + 1
+        # ---- who can carry an IceConn around: signatures, struct fields, trait impls, macros
+        for f in sc.fns:
+            hdr = f[3]
+            par_end = hdr.rfind(")")
+            arrow = hdr.find("->", par_end if par_end >= 0 else 0)
+            params = hdr[:arrow] if arrow >= 0 else hdr
+            ret = hdr[arrow:] if arrow >= 0 else ""
+            kind = ("param" if has_ice(params) else "") + ("+" if has_ice(params) and has_ice(ret) else "") + ("ret" if has_ice(ret) else "")
+            if kind:
+                carriers.append((rel, sc.label(f[4]), kind))
+        for fld, tys in sorted(fields.items()):
+            for t in tys:
+                if has_ice(t):
+                    holders.append((rel, fld, norm(t)))
+        for im in sc.impls:
+            mm = re.match(r"^(.*?)\s+for\s+(.*)$", im[2])
+            if not mm:
+                continue
+            trait, ty = norm(mm.group(1)), norm(mm.group(2))
+            inside = lambda ps: sum(1 for p_ in ps if im[0] <= p_ < im[1])
+            meths = sorted(f[2] for f in sc.fns if im[0] <= f[0] < im[1] and sc.outer_fn_at(f[4]) == f)
+            if ty == "IceConn":
+                ice_impls.append((rel, trait, " ".join(meths), inside(send_pos) + inside(sock_pos)))
+            if trait == "PacketReceiver":
+                recv_impls.append((rel, ty, inside(send_pos), inside(sock_pos)))
+        for m in re.finditer(r"\bmacro_rules!\s*([A-Za-z0-9_]+)\s*\{", s):
+            body = s[m.end() - 1:match_brace(s, m.end() - 1)]
+            if re.search(r"\.\s*(send|try_send|send_rtcp|send_to|try_send_to|send_dtls_record_batch|write_all)\s*\(|\bIceConn\b|ice_conn", body):
+                macros.append((rel, m.group(1)))
         if rel != RTP:
             for m in re.finditer(r"\bRtpTransport::(new|new_with_ssrc_change)\s*\(", s):
                 close = matching_paren(s, m.end() - 1)
@@ -467,7 +509,7 @@ def census():
                 if len(args) < 2:
                     raise Untranslatable("%s: RtpTransport::%s call with %d arguments" % (rel, m.group(1), len(args)))
                 ctor.append((rel, sc.label(m.start()), norm(args[1])))
-    return sources, send_sites, socket_sites, uses, ctor, callers
+    return sources, send_sites, socket_sites, uses, ctor, callers, (carriers, holders, ice_impls, recv_impls, macros)
 
 
 def matching_paren(s, start):
@@ -771,7 +813,7 @@ def gates(m):
 def gen_sites():
     m = Module("SendSites")
     try:
-        sources, send_sites, socket_sites, uses, ctor, callers = census()
+        sources, send_sites, socket_sites, uses, ctor, callers, extra = census()
         guards = mode_guards(sources, ctor)
         gate_lines = gates(m)
     except Untranslatable:
@@ -794,6 +836,24 @@ def gen_sites():
              "feedback, close-time BYE ...): (file, enclosing function, gated sender, count) *)")
     L.append("Definition gated_callers : list (string * string * string * Z) := [\n  %s]." % ";\n  ".join(
         "(%s, %s, %s, %d)" % (coq_str(f), coq_str(fn), coq_str(c), n) for (f, fn, c), n in sorted(callers.items())))
+    carriers, holders, ice_impls, recv_impls, macros = extra
+    L.append("(* every function whose signature mentions IceConn: (file, function, param / ret / param+ret) -- a helper that takes "
+             "or hands out the raw connection *)")
+    L.append("Definition ice_conn_carriers : list (string * string * string) := [\n  %s]." % ";\n  ".join(
+        "(%s, %s, %s)" % (coq_str(f), coq_str(fn), coq_str(k)) for f, fn, k in sorted(set(carriers))))
+    L.append("(* every struct field whose declared type mentions IceConn: (file, field, type) *)")
+    L.append("Definition ice_conn_holders : list (string * string * string) := [\n  %s]." % ";\n  ".join(
+        "(%s, %s, %s)" % (coq_str(f), coq_str(fl), coq_str(t)) for f, fl, t in sorted(set(holders))))
+    L.append("(* every trait implemented for IceConn (what a `dyn Trait` holding an IceConn can do): "
+             "(file, trait, methods, number of send / socket-write sites inside the impl) *)")
+    L.append("Definition ice_conn_trait_impls : list (string * string * string * Z) := [\n  %s]." % ";\n  ".join(
+        "(%s, %s, %s, %d)" % (coq_str(f), coq_str(t), coq_str(ms), n) for f, t, ms, n in sorted(ice_impls)))
+    L.append("(* every PacketReceiver impl: (file, type, IceConn send sites inside, raw socket writes inside) *)")
+    L.append("Definition packet_receiver_impls : list (string * string * Z * Z) := [\n  %s]." % ";\n  ".join(
+        "(%s, %s, %d, %d)" % (coq_str(f), coq_str(t), a, b) for f, t, a, b in sorted(recv_impls)))
+    L.append("(* macro_rules! whose body mentions a sender or an IceConn: (file, name) *)")
+    L.append("Definition send_macros : list (string * string) := [%s]." % "; ".join(
+        "(%s, %s)" % (coq_str(f), coq_str(n)) for f, n in sorted(macros)))
     L.append("Inductive req_rule : Set := ReqUnlessRtpMode | ReqNever | ReqAlways.")
     L.append("(* RtpTransport constructor sites: (enclosing function, how srtp_required is decided, "
              "for ReqNever: every call path is guarded by transport_mode == TransportMode::Rtp) *)")
